@@ -279,6 +279,70 @@ example :
     pathOf (replaceDummy w) ⟨[0], .self⟩ = some [.text 1] ∧
     evalSteps (replaceDummy w) [.text 1] = [⟨[0], .self⟩] := by decide
 
+/-! ### several trees in one evaluation
+
+One evaluation can touch several trees: the context root, documents from `fn:doc`, nodes bound to
+variables, documents built by `fn:parse-xml` / `fn:parse-xml-fragment` / `fn:json-to-xml`.
+`fnPathForest F ctx t r` is `fn:path` of node `r` of tree `t` while tree `ctx` is the context root. -/
+
+/-- `fn:path` does not depend on which tree is the context root (since b4af310). -/
+theorem forest_path_ignores_context (F : Forest) (ctx ctx' t : Nat) (r : Ref) :
+    fnPathForest F ctx t r = fnPathForest F ctx' t r := rfl
+
+/-- `fn:path` is defined for exactly the nodes of the trees of the evaluation, whatever the context root. -/
+theorem forest_path_defined_iff (F : Forest) (ctx : Nat) (n : FNode) :
+    (fnPathForest F ctx n.tree n.ref).isSome ↔ n.valid F := by
+  unfold fnPathForest FNode.valid
+  cases F[n.tree]? with
+  | none => simp
+  | some top => exact path_defined_iff_valid top n.ref
+
+/-- PER-TREE statement of the headline: the path returned for a node, evaluated from the root of
+the node's OWN tree, selects exactly that node. -/
+theorem forest_path_selects_self (F : Forest) (ctx : Nat) (n : FNode) (steps : List Step)
+    (hw : ∀ top ∈ F, top.wf = true) (h : fnPathForest F ctx n.tree n.ref = some steps) :
+    evalInTree F n.tree steps = [n] := by
+  unfold fnPathForest at h
+  unfold evalInTree
+  cases ht : F[n.tree]? with
+  | none => simp [ht] at h
+  | some top =>
+    simp only [ht] at h ⊢
+    have hmem : top ∈ F := List.mem_of_getElem? ht
+    rw [path_selects_self top n.ref steps (hw top hmem) h]
+    cases n; rfl
+
+/-- PER-TREE uniqueness: two nodes of the SAME tree with the same path are the same node. -/
+theorem forest_path_injective_per_tree (F : Forest) (ctx : Nat) (n₁ n₂ : FNode) (steps : List Step)
+    (hw : ∀ top ∈ F, top.wf = true) (ht : n₁.tree = n₂.tree)
+    (h₁ : fnPathForest F ctx n₁.tree n₁.ref = some steps) (h₂ : fnPathForest F ctx n₂.tree n₂.ref = some steps) :
+    n₁ = n₂ := by
+  have e₁ := forest_path_selects_self F ctx n₁ steps hw h₁
+  have e₂ := forest_path_selects_self F ctx n₂ steps hw h₂
+  rw [ht, e₂] at e₁
+  exact (List.head_eq_of_cons_eq e₁).symm
+
+/-- Across trees paths are NOT unique, and cannot be: two trees of the same shape (e.g. one string
+parsed twice) give every pair of corresponding nodes the same path; the path evaluated in tree 0
+selects the node of tree 0.  What identifies a node of a forest is (tree, path).  Kernel-checked. -/
+theorem forest_paths_not_unique_across_trees :
+    let t := docNode [.elem ⟨"", "r"⟩ [] [] [.elem ⟨"", "a"⟩ [] [] [], .text]]
+    let F : Forest := [t, t]
+    let n₀ : FNode := ⟨0, ⟨[0, 1], .self⟩⟩
+    let n₁ : FNode := ⟨1, ⟨[0, 1], .self⟩⟩
+    n₀ ≠ n₁ ∧ fnPathForest F 0 n₀.tree n₀.ref = fnPathForest F 0 n₁.tree n₁.ref ∧
+    fnPathForest F 0 n₁.tree n₁.ref = some [.child ⟨"", "r"⟩ 1, .text 1] ∧
+    evalInTree F 0 [.child ⟨"", "r"⟩ 1, .text 1] = [n₀] ∧
+    evalInTree F 1 [.child ⟨"", "r"⟩ 1, .text 1] = [n₁] := by decide
+
+/-- F14h (repaired by b4af310), kernel-checked: the old `evaluate__path` returned the empty
+sequence for every node of a tree other than the context root's. -/
+theorem forest_old_loses_foreign_nodes :
+    let t := docNode [.elem ⟨"", "r"⟩ [] [] []]
+    let F : Forest := [t, t]
+    fnPathForestOld F 0 1 ⟨[0], .self⟩ = none ∧ fnPathForest F 0 1 ⟨[0], .self⟩ = some [.child ⟨"", "r"⟩ 1] := by
+  decide
+
 /-! ### known finding F14f: `node.path` in a fragment context
 
 For a tree rooted at a parent-less element `node.path` is `/Q{ns}root[1]/…` (pinned by
@@ -297,6 +361,30 @@ theorem fragment_root_path_fails (e : Node) :
       (nth1 1 (idxWhere (stepShape e).test e.kids 0)) := by rw [h]; simp
   obtain ⟨i, _, hi⟩ := List.mem_map.1 hm
   simp at hi
+
+/-- F14f, exact extent: in a fragment context the absolute `node.path` selects its node for NO node
+of NO tree — the text always has one child step more than the node is deep below the root element,
+and it is evaluated from the root element.  So the trigger of the finding is exactly "the path is
+evaluated in a fragment context"; nothing else matters. -/
+theorem fragment_abs_path_never_selects (e : Node) (is : List Nat) (sel : Sel) (abs : List Step)
+    (hp : pathOf (docNode [e]) ⟨0 :: is, sel⟩ = some abs) : evalAbsInFragment e abs ≠ [⟨is, sel⟩] := by
+  rw [fn_path_fragment] at hp
+  cases hrel : pathOf e ⟨is, sel⟩ with
+  | none => simp [hrel] at hp
+  | some rel =>
+    simp only [hrel, Option.map_some, Option.some.injEq] at hp
+    subst hp
+    intro h
+    have hm : (⟨is, sel⟩ : Ref) ∈ evalFrom e [⟨[], .self⟩] (childStep e 1 :: rel) := by
+      have : evalFrom e [⟨[], .self⟩] (childStep e 1 :: rel) = [⟨is, sel⟩] := h
+      rw [this]; simp
+    obtain ⟨c, hc, hlen⟩ := evalFrom_len e _ _ _ hm
+    simp only [List.mem_singleton] at hc
+    subst hc
+    have hn := nChild_pathOfWith sameKind e ⟨is, sel⟩ rel hrel
+    simp only [nChild, List.filter_cons, childStep_isChild, if_true, List.length_cons] at hlen hn
+    simp only [List.length_nil] at hlen
+    omega
 
 /-- F14f, kernel-checked on `<r><r><a/></r><a/></r>` as a fragment: the path `/Q{}r[1]/Q{}a[1]` of
 the outer `a` selects the inner `a` (a wrong node); through the dummy document it selects the
